@@ -1401,3 +1401,35 @@ pub fn explore(stmts: &[String]) {
         }
     }
 }
+
+/// manual replay of the library paths: `c21 --explore-lib <path> <max_depth> <nbase> <arity,arity,..> '<program in corpus syntax>'`
+pub fn explore_lib(a: &[String]) {
+    let path: u64 = a[0].parse().expect("path");
+    let max_depth: usize = a[1].parse().expect("max_depth");
+    let nbase: usize = a[2].parse().expect("nbase");
+    let arity: Vec<usize> = a[3].split(',').map(|x| x.parse().expect("arity")).collect();
+    let dom = vec![V::I(0), V::I(1), V::I(2), V::I(3)];
+    let p = parse_prog(nbase, &arity, &dom, &a[4].replace("\\n", "\n"), "manual");
+    let ld = load(&p).expect("load");
+    let derived_model = model_to_data(&p, &ld.model, true);
+    for r in p.nbase..p.nrel() {
+        for t in &ld.model[r] {
+            let cfg = ProofConfig { max_depth, ..ProofConfig::default() };
+            let ctx0 = ProofContext::new(&ld.rules_sub, &ld.base, cfg);
+            let ctx = if path == 1 { ctx0.with_derived_data(&derived_model) } else { ctx0 };
+            println!("== r{}({})", r, tuple_text(t));
+            match build_proof_tree(&format!("r{}", r), &tuple_of(t), &ctx) {
+                Ok(tree) => {
+                    let mut ids: Vec<(usize, &String)> = tree.nodes.keys().map(|k| (k[1..].parse().unwrap_or(0), k)).collect();
+                    ids.sort();
+                    println!("root {:?}", tree.roots);
+                    for (_, k) in ids {
+                        let n = &tree.nodes[k];
+                        println!("  {} {:?} {}({:?}) rule={:?} kids={:?}", k, n.kind, n.conclusion.pred, n.conclusion.args, n.rule_id, n.children);
+                    }
+                }
+                Err(e) => println!("Err {}", e),
+            }
+        }
+    }
+}
